@@ -173,6 +173,18 @@ CHECKS = {
              "StackedPickle.load); what the injection does is C08. Bounded companion replay/cli_diff.py (492 command lines) checks the bytes, the "
              "result names and variable reuse end to end.",
         ref="§C18"),
+    "C08": dict(
+        text="Proof of the structure of the rewritten opcode sequence, for every base pickle and every argument tuple: Pickled.insert (the "
+             "primitive), _encode_python_obj (recursive, under its own contract), insert_python_obj, insert_python, append_python and "
+             "insert_magic_int are verified to keep every original opcode, in order (kept(new) == kept(old), a ghost filter relative to a rigid "
+             "threshold), to insert only new objects none of which is a STOP, to leave the original STOP last, to clear the caches and keep "
+             "the class invariant (unbounded loops by invariant).",
+        note="What the rewritten bytes do when unpickled (one call with the given arguments, the original effects in order, empty stack at "
+             "STOP, promised result, verdict not LIKELY_SAFE) is a property of the pickle VM applied to that structure: bounded companion "
+             "replay/inject_diff.py (41 bases x 10 modes, accelerated and pure-Python unpicklers), labelled bounded. "
+             "insert_function_call_on_unpickled_object is covered only by the companion; known finding: its exec/eval pair shares no "
+             "namespace under the pure-Python unpickler. ConstantOpcode.new is under a trusted contract here (C15 verifies it).",
+        ref="§C08"),
 }
 NA_REASON = "check not built yet (work in progress; see DESIGN.md)"
 
